@@ -224,6 +224,29 @@ Proof.
     destruct (slru_get_inv (fun _ _ => True) s k s' h I E G) as (I' & E' & _). cbn [fst]. apply IH; assumption.
 Qed.
 
+Lemma static_lru_mem_invariant_lemma : forall bd size limit ops, 1 <= size ->
+  exists s, run_ops bd (slru_new size limit) ops = Ok s /\
+            s_used s = caps (s_inner s) + s_fcap s /\
+            s_used s <= s_limit s + 7 /\
+            count (s_inner s) <= size.
+Proof.
+  intros bd size limit ops Hs.
+  destruct (static_lru_mem_invariant_all bd size limit ops Hs) as (s & E & I).
+  exists s. split; [exact E|]. destruct I as [Ha Hl Hb Hc Hf Hs' Hn]. split; [exact Ha|]. split; [exact Hb|].
+  assert (Z : forall ops s0 s1, run_ops bd s0 ops = Ok s1 -> sinv s0 -> s_size s1 = s_size s0).
+  { clear. induction ops as [|[k d kind csz|k] r IH]; intros s0 s1 H I0; cbn [run_ops] in H.
+    - injection H as <-. reflexivity.
+    - destruct (slru_put_inv (fun _ _ => True) bd s0 k d kind csz I0) as (s' & E' & I' & _ & _ & S');
+        [apply Forall_forall; intros; exact Logic.I | exact Logic.I |].
+      rewrite E' in H. cbn [obind] in H. rewrite (IH _ _ H I'). exact S'.
+    - destruct (slru_get s0 k) as [s' h] eqn:G. cbn [fst] in H.
+      destruct (slru_get_inv (fun _ _ => True) s0 k s' h I0) as (I' & _ & _ & _ & S');
+        [apply Forall_forall; intros; exact Logic.I | exact G |].
+      rewrite (IH _ _ H I'). exact S'. }
+  rewrite (Z _ _ _ E (sinv_new size limit Hs)) in Hn. exact Hn.
+Qed.
+
+
 (* ---- MemoryCappedHashmap (both the pack cache and the object cache) ------------------------------ *)
 Lemma evict_Forall (Q : centry -> Prop) extra w cap : forall fuel l, Forall Q l -> Forall Q (evict fuel extra l w cap).
 Proof.
